@@ -369,6 +369,9 @@ func (u *fakeUp) handle(w []byte, proto string) (reply []byte, fail bool) {
 	if b.has('N') || b.rcode != 0 && b.has('A') {
 		r.Ns = append(r.Ns, &dns.SOA{Hdr: dns.RR_Header{Name: "test.", Rrtype: dns.TypeSOA, Class: dns.ClassINET, Ttl: uint32(b.ttl)}, Ns: "ns.test.", Mbox: "m.test.", Serial: tok, Refresh: 1, Retry: 2, Expire: 3, Minttl: 4})
 	}
+	if b.has('P') { // the upstream's OPT stands first in the additional section, other records behind it
+		b.flags += "O"
+	}
 	if b.has('O') {
 		o := &dns.OPT{Hdr: dns.RR_Header{Name: ".", Rrtype: dns.TypeOPT}}
 		o.SetUDPSize(4096)
@@ -378,6 +381,10 @@ func (u *fakeUp) handle(w []byte, proto string) (reply []byte, fail bool) {
 			&dns.EDNS0_SUBNET{Code: dns.EDNS0SUBNET, Family: 1, SourceNetmask: 24, SourceScope: 24, Address: net.IPv4(9, 9, 9, 0)},
 			&dns.EDNS0_PADDING{Padding: make([]byte, 17)})
 		r.Extra = append(r.Extra, o)
+		if b.has('P') {
+			r.Extra = append(r.Extra, &dns.A{Hdr: dns.RR_Header{Name: "glue1.test.", Rrtype: dns.TypeA, Class: dns.ClassINET, Ttl: uint32(b.ttl)}, A: net.IPv4(10, 9, 8, 7)},
+				&dns.A{Hdr: dns.RR_Header{Name: "glue2.test.", Rrtype: dns.TypeA, Class: dns.ClassINET, Ttl: uint32(b.ttl)}, A: net.IPv4(10, 9, 8, 6)})
+		}
 	}
 	// the length of the reply as the proxy will account for it: uncompressed, without the upstream's OPT
 	r2 := r.Copy()
